@@ -250,6 +250,26 @@ func genRoute(r *rand.Rand, maxSegs int, allowGrp bool, pool *[]segGen) routeGen
 	return rg
 }
 
+// genWideRoute: "/w/<final>" where the final segment is the j-th child of one wide node.
+func genWideRoute(r *rand.Rand, j int) routeGen {
+	na := &nameAlloc{n: 40 + j}
+	parent := segGen{aSeg{K: "S", T: "w", Binds: []string{}, Els: []aEl{{Ty: "lit", V: "w"}}}, func(*rand.Rand) []string { return []string{"w"} }}
+	var last segGen
+	switch k := r.Intn(10); {
+	case k < 6:
+		t := fmt.Sprintf("s%d", j)
+		last = segGen{aSeg{K: "S", T: t, Binds: []string{}, Els: []aEl{{Ty: "lit", V: t}}}, func(*rand.Rand) []string { return []string{t} }}
+	case k < 9:
+		last = genRegexSimple(r, na, false)
+	default:
+		last = genPlaceholder(r, na)
+	}
+	rg := routeGen{segs: []segGen{parent, last}}
+	rg.r.Gram = true
+	rg.r.Segs = []aSeg{parent.seg, last.seg}
+	return rg
+}
+
 // instance returns an admitted request path of the route (long or short form) as segments.
 func (rg routeGen) instance(r *rand.Rand) []string {
 	segs := rg.segs
@@ -325,7 +345,7 @@ func hostilePath(r *rand.Rand) string {
 
 var hdrExprs = []hdrC{{Name: "X-K", Expr: "v"}, {Name: "X-K", Expr: "^w$"}, {Name: "User-Agent", Expr: "Chrome"}, {Name: "X-Id", Expr: "[0-9]+"}, {Name: "Cache-Control", Expr: ""}, {Name: "X-K", Expr: "^(a|b)$"},
 	{Name: "X-K", Expr: ""}, {Name: "X-Id", Expr: "^[0-9]*$"}, {Name: "Cache-Control", Expr: "^(no-cache)?$"}}
-var hdrVals = map[string][]string{"X-K": {"", "v", "w", "vw", "a", "xvx"}, "User-Agent": {"", "Chrome/1", "Firefox"}, "X-Id": {"", "12", "ab"}, "Cache-Control": {"", "no-cache"}}
+var hdrVals = map[string][]string{"X-K": {"", "v", "w", "vw", "a", "xvx", " w", "w\t", " ", "a "}, "User-Agent": {"", "Chrome/1", "Firefox"}, "X-Id": {"", "12", "ab", " 12 ", "\t"}, "Cache-Control": {"", "no-cache"}}
 
 func randReqHdr(r *rand.Rand) map[string]string {
 	h := map[string]string{}
@@ -406,9 +426,18 @@ func treeGen(seed int64, n int, args []string, out *json.Encoder) {
 			methods = []string{"GET", "GET", "POST", "HEAD"}
 		}
 		allowGrp := rng.Intn(4) == 0
+		// now and then a WIDE node: well over a dozen routes whose last segment hangs off the same parent (statics, several
+		// overlapping expressions, placeholders) - the order among equals must survive however many siblings there are
+		wide := (kind == "prio" || kind == "reg") && rng.Intn(8) == 0
+		if wide {
+			nr = 14 + rng.Intn(7)
+		}
 		call := 0
 		for j := 0; j < nr; j++ {
 			rg := genRoute(rng, 5, allowGrp, &pool)
+			if wide {
+				rg = genWideRoute(rng, j)
+			}
 			rt := rg.r
 			if kind == "reg" && rng.Intn(10) < 3 {
 				rt = makeIllFormed(rng, rg, &pool)
@@ -537,6 +566,9 @@ func treeGen(seed int64, n int, args []string, out *json.Encoder) {
 						rq.H = randReqHdr(rng)
 						if rng.Intn(4) == 0 {
 							rq.M = pick(rng, methods)
+						}
+						if rng.Intn(6) == 0 {
+							rq.M = pick(rng, []string{"get", "Get", "post", "hEAD"}) // not the registered method: no route, table or tree
 						}
 					}
 					c.Reqs = append(c.Reqs, rq)
